@@ -87,8 +87,12 @@ Qed.
 
 (* Grimme's interpolation: the gap to the harmonic entropy is EXACTLY sum (1 - w_i)(s_r,i - s_v,i); the weights
    satisfy 0 <= 1 - w_i <= (w0/f_i)^alpha; so when every frequency is at least K*w0 the gap in S (and in G,
-   H being identical) is at most (1/K)^alpha times a sum that does not depend on K: it vanishes as K grows. *)
-Theorem grimme_igm_gap_bound : forall (sp : Species R) (p : Params R) (K : R),
+   H being identical) is at most (1/K)^alpha times sum |s_r,i - s_v,i|.
+   PARTIAL with respect to the clause "coincides with the harmonic result when all frequencies are high": the bound is
+   proved, a LIMIT is not.  The remaining sum depends on the frequencies (s_r grows like ln(1/f)); it vanishes for fixed
+   frequencies as w0 -> 0, but for fixed w0 and growing frequencies no lemma here bounds sum |s_r - s_v|, so convergence
+   to the harmonic result is not proved (it is exercised on the implementation only, at w0 = 1 cm-1). *)
+Theorem grimme_igm_gap_bound_partial : forall (sp : Species R) (p : Params R) (K : R),
   (2 <= List.length (sp_atoms sp))%nat -> 0 <= p_T p -> 0 <= p_w0 p -> 0 < K ->
   Forall (fun f => 0 < f /\ K * p_w0 p <= f) (sp_vib sp) ->
   grimme_s_vib RO sp (p_T p) (p_w0 p) (p_alpha p) - igm_s_vib RO sp (p_T p) =
@@ -112,7 +116,7 @@ Qed.
 (* Minenkov's variant additionally interpolates the vibrational internal energy with the same weights:
    U_minenkov - U_igm = sum (1 - w_i)(u_r - u_v,i), S_minenkov = S_grimme, and the gaps in H and G obey the same
    (1/K)^alpha bound. *)
-Theorem minenkov_gap_bound : forall (sp : Species R) (p : Params R) (K : R),
+Theorem minenkov_gap_bound_partial : forall (sp : Species R) (p : Params R) (K : R),
   (2 <= List.length (sp_atoms sp))%nat -> 0 <= p_T p -> 0 <= p_w0 p -> 0 < K ->
   Forall (fun f => 0 < f /\ K * p_w0 p <= f) (sp_vib sp) ->
   internal_vib_energy RO sp (with_method p LF_minenkov) - internal_vib_energy RO sp (with_method p LF_igm) =
@@ -184,13 +188,22 @@ Theorem q_rot_depends_on_moi_via_invariants : forall (sp : Species R) (T s : R),
                               (rot_const * rot_const * rot_const * det3 RO (eig_arg RO sp)))).
 Proof. exact q_rot_nonlinear_det. Qed.
 
-(* Frame independence: the same molecule after ANY rigid motion r -> Rm r + t (Rm orthogonal) and ANY
-   permutation of its atoms, with the same given frequencies, the same parameters (incl. symmetry number) and
-   valid oracles in both frames, has the same H and G contributions, entropy and internal energy. *)
-Theorem thermo_frame_independent :
+(* Frame independence of the ARITHMETIC between the oracles, for every molecule class (single atom, linear, non-linear):
+   the same molecule after ANY rigid motion r -> Rm r + t (Rm orthogonal) and ANY permutation of its atoms, carrying the
+   same given frequency list and the same parameters, has the same H and G contributions, entropy and internal energy,
+   PROVIDED the oracles answer alike in both frames.
+   PARTIAL with respect to the clause "do not depend on position, orientation or atom order": three oracle premises
+   remain (the second is false of the real code on some inputs: known finding):
+     - sp_linear sp' = sp_linear sp (inside same_molecule): discharged for atom re-orderings by is_linear_atom_order_independent
+       (hand model of Atoms.are_linear, tied by pin + correspondence); for rigid motions it is exercised on the implementation only;
+     - the same p_sigma in both frames: the default symmetry number comes from the search in symmetry.py, which depends
+       on the atom order for benzene-type molecules;
+     - the eigenvalue oracle is valid (product = det, sum = trace, positive) wherever it is consulted, i.e. only for
+       non-linear species with more than one atom (needs_eig); for linear molecules and single atoms nothing is assumed. *)
+Theorem thermo_frame_independent_partial :
   forall (Rm : @mat R) (t : nat -> R) (sp sp' : Species R) (p : Params R),
   same_molecule RO Rm t sp sp' -> orthogonal RO Rm -> mom0 RO (sp_atoms sp) <> 0 ->
-  eig_ok sp -> eig_ok sp' ->
+  (needs_eig sp -> eig_ok sp) -> (needs_eig sp' -> eig_ok sp') ->
   h_cont RO sp' p = h_cont RO sp p /\ g_cont RO sp' p = g_cont RO sp p /\
   entropy RO sp' p = entropy RO sp p /\ internal_energy RO sp' p = internal_energy RO sp p.
 Proof.
@@ -233,6 +246,27 @@ Proof.
   intros x. rewrite temp_arg_kelvin, freq_arg_wavenumber, freq_arg_num, conv_same_kelvin, conv_same_wavenumber.
   do 5 (split; [reflexivity|]). split; [apply temp_arg_celsius|apply freq_arg_hz].
 Qed.
+(* The linearity decision (hand model are_linear_q of Atoms.are_linear as repaired by 5a4ab9d: the angles are measured at EVERY
+   atom) does not depend on the order of the atoms, hence neither does the number of vibrational modes vib_of selects: the premise
+   sp_linear sp' = sp_linear sp of thermo_frame_independent_partial holds for every re-ordering.  (Before the repair every angle was
+   measured at atom 0 and a triatomic bent by 1.5 degrees was linear listed O,C,O but not listed C,O,O; the harness keeps that input:
+   key calculate_thermo_cont|atom-order-dependence:near-linear:delta=1.5deg.) *)
+Theorem is_linear_atom_order_independent :
+  forall (tol : Qc) (atoms atoms' : list (@atom Qc)) (freqs : list Qc),
+    Permutation atoms atoms' ->
+    are_linear_q tol atoms = are_linear_q tol atoms' /\
+    vib_of (are_linear_q tol atoms) freqs = vib_of (are_linear_q tol atoms') freqs.
+Proof. intros tol atoms atoms' freqs P. rewrite (are_linear_q_perm tol _ _ P). split; reflexivity. Qed.
+
+(* non-vacuity / discrimination: the decision separates a 0.75-degree from a 1.5-degree bend in EVERY order of O,C,O *)
+Example are_linear_q_discriminates :
+  let tol := qc 1523 10000000 in
+  let o1 := mkAtom (qc 16 1) (qc (-1) 1) (Q2Qc 0) (Q2Qc 0) in let o2 := mkAtom (qc 16 1) (qc 1 1) (Q2Qc 0) (Q2Qc 0) in
+  let c15 := mkAtom (qc 12 1) (Q2Qc 0) (qc 1 76) (Q2Qc 0) in let c05 := mkAtom (qc 12 1) (Q2Qc 0) (qc 1 229) (Q2Qc 0) in
+  are_linear_q tol [o1; c15; o2] = false /\ are_linear_q tol [c15; o1; o2] = false /\
+  are_linear_q tol [o1; c05; o2] = true /\ are_linear_q tol [c05; o2; o1] = true.
+Proof. cbv zeta. repeat split; vm_compute; reflexivity. Qed.
+
 (* ------------------------------------------------------------------ non-vacuity *)
 (* an exactly orthogonal, non-trivial rational rotation (Pythagorean quaternion (1,2,2,4), norm 25) *)
 Definition ex_rows : list (list Qc) :=
@@ -251,6 +285,7 @@ Definition ex_atoms : list (@atom R) :=
   [mkAtom 1 1 0 0; mkAtom 1 (-1) 0 0; mkAtom 1 0 2 0; mkAtom 1 0 (-2) 0; mkAtom 1 0 0 3; mkAtom 1 0 0 (-3)].
 Definition ex_scale : R := u_kg_m_sq RO / u_amu_ang_sq RO.
 Definition ex_eig (k : nat) : R := match k with 0%nat => 10 * ex_scale | 1%nat => 20 * ex_scale | _ => 26 * ex_scale end.
+Definition ex_freqs : list R := [0; 0; 0; 0; 0; 0; 3000; 3500].
 Definition ex_sp : Species R := mkSpecies ex_atoms false ex_eig [3000; 3500].
 Definition ex_Rm : @mat R := fun i j =>
   match i, j with 0%nat, 1%nat => -1 | 1%nat, 0%nat => 1 | 2%nat, 2%nat => 1 | _, _ => 0 end.
@@ -267,11 +302,12 @@ Qed.
 
 Example frame_hypotheses_nonvacuous :
   same_molecule RO ex_Rm ex_t ex_sp ex_sp' /\ orthogonal RO ex_Rm /\ mom0 RO (sp_atoms ex_sp) <> 0 /\
-  eig_ok ex_sp /\ eig_ok ex_sp' /\ (2 <= List.length (sp_atoms ex_sp))%nat /\ 0 < q_rot_igm RO ex_sp 300 1 /\
+  needs_eig ex_sp /\ eig_ok ex_sp /\ eig_ok ex_sp' /\ (2 <= List.length (sp_atoms ex_sp))%nat /\ 0 < q_rot_igm RO ex_sp 300 1 /\
   Forall (fun f => 0 < f /\ 30 * 100 <= f) (sp_vib ex_sp) /\ Forall (fun f => 100 <= f) (sp_vib ex_sp).
 Proof.
   assert (Hsame : same_molecule RO ex_Rm ex_t ex_sp ex_sp').
-  { split; [|split; reflexivity]. cbn [sp_atoms ex_sp ex_sp']. apply Permutation_sym, Permutation_rev. }
+  { split; [|split; [reflexivity|exists ex_freqs; split; reflexivity]].
+    cbn [sp_atoms ex_sp ex_sp']. apply Permutation_sym, Permutation_rev. }
   assert (Horth : orthogonal RO ex_Rm).
   { intros i j Hi Hj. unfold gram, gramT, delta, ex_Rm.
     destruct i as [|[|[|i]]]; try lia; destruct j as [|[|[|j]]]; try lia; cbn [Nat.eqb]; ro; split; ring. }
@@ -289,8 +325,47 @@ Proof.
     split; [|split; [|exact Hpos]]; cbn [sp_eig ex_sp'].
     - rewrite Hd. exact (proj1 Hdet).
     - rewrite Ht. exact (proj2 Hdet). }
-  split; [exact Hsame|]. split; [exact Horth|]. split; [exact Hmass|]. split; [exact Hok|]. split; [exact Hok'|].
+  split; [exact Hsame|]. split; [exact Horth|]. split; [exact Hmass|].
+  split; [split; [reflexivity|cbn [sp_atoms ex_sp ex_atoms List.length]; lia]|]. split; [exact Hok|]. split; [exact Hok'|].
   split; [cbn [sp_atoms ex_sp ex_atoms List.length]; lia|].
   split; [apply q_rot_positive_nonlinear; [lra|exact Hok|reflexivity|cbn [sp_atoms ex_sp ex_atoms List.length]; lia]|].
   cbn [sp_vib ex_sp]. split; repeat constructor; lra.
+Qed.
+
+(* the linear and the atomic class: the premises of thermo_frame_independent_partial are satisfiable there too, and the
+   eigenvalue premises are vacuous (needs_eig is false), so the theorem applies with NO assumption on the oracle sp_eig *)
+Definition ex_lin (e : nat -> R) : Species R := mkSpecies [mkAtom 1 0 0 0; mkAtom 19 0 0 1] true e [4000].
+Definition ex_lin' (e : nat -> R) : Species R :=
+  mkSpecies (rev (map (move RO ex_Rm ex_t) [mkAtom 1 0 0 0; mkAtom 19 0 0 1])) true e [4000].
+Definition ex_atom (e : nat -> R) : Species R := mkSpecies [mkAtom 40 3 1 (-2)] false e [].
+Definition ex_atom' (e : nat -> R) : Species R := mkSpecies (map (move RO ex_Rm ex_t) [mkAtom 40 3 1 (-2)]) false e [].
+
+Example frame_hypotheses_nonvacuous_linear_and_atom : forall (e e' : nat -> R) (p : Params R),
+  (same_molecule RO ex_Rm ex_t (ex_lin e) (ex_lin' e') /\ mom0 RO (sp_atoms (ex_lin e)) <> 0 /\ ~ needs_eig (ex_lin e) /\
+   g_cont RO (ex_lin' e') p = g_cont RO (ex_lin e) p /\ h_cont RO (ex_lin' e') p = h_cont RO (ex_lin e) p) /\
+  (same_molecule RO ex_Rm ex_t (ex_atom e) (ex_atom' e') /\ mom0 RO (sp_atoms (ex_atom e)) <> 0 /\ ~ needs_eig (ex_atom e) /\
+   g_cont RO (ex_atom' e') p = g_cont RO (ex_atom e) p /\ h_cont RO (ex_atom' e') p = h_cont RO (ex_atom e) p).
+Proof.
+  intros e e' p.
+  assert (Horth : orthogonal RO ex_Rm).
+  { intros i j Hi Hj. unfold gram, gramT, delta, ex_Rm.
+    destruct i as [|[|[|i]]]; try lia; destruct j as [|[|[|j]]]; try lia; cbn [Nat.eqb]; ro; split; ring. }
+  split.
+  - assert (Hs : same_molecule RO ex_Rm ex_t (ex_lin e) (ex_lin' e')).
+    { split; [|split; [reflexivity|exists [0; 0; 0; 0; 0; 4000]; split; reflexivity]].
+      cbn [sp_atoms ex_lin ex_lin']. apply Permutation_sym, Permutation_rev. }
+    assert (Hm : mom0 RO (sp_atoms (ex_lin e)) <> 0) by (unfold mom0; cbn [sp_atoms ex_lin lsum am]; ro; lra).
+    assert (Hn : ~ needs_eig (ex_lin e)) by (intros [H _]; discriminate H).
+    assert (Hn' : ~ needs_eig (ex_lin' e')) by (intros [H _]; discriminate H).
+    destruct (thermo_frame_independent_partial ex_Rm ex_t (ex_lin e) (ex_lin' e') p Hs Horth Hm
+                (fun H => False_ind _ (Hn H)) (fun H => False_ind _ (Hn' H))) as [Hh [Hg _]].
+    split; [exact Hs|]. split; [exact Hm|]. split; [exact Hn|]. split; [exact Hg|exact Hh].
+  - assert (Hs : same_molecule RO ex_Rm ex_t (ex_atom e) (ex_atom' e')).
+    { split; [apply Permutation_refl|split; [reflexivity|exists []; split; reflexivity]]. }
+    assert (Hm : mom0 RO (sp_atoms (ex_atom e)) <> 0) by (unfold mom0; cbn [sp_atoms ex_atom lsum am]; ro; lra).
+    assert (Hn : ~ needs_eig (ex_atom e)) by (intros [_ H]; apply H; reflexivity).
+    assert (Hn' : ~ needs_eig (ex_atom' e')) by (intros [_ H]; apply H; reflexivity).
+    destruct (thermo_frame_independent_partial ex_Rm ex_t (ex_atom e) (ex_atom' e') p Hs Horth Hm
+                (fun H => False_ind _ (Hn H)) (fun H => False_ind _ (Hn' H))) as [Hh [Hg _]].
+    split; [exact Hs|]. split; [exact Hm|]. split; [exact Hn|]. split; [exact Hg|exact Hh].
 Qed.
